@@ -16,8 +16,8 @@ CLAIMS = {
    technique='CBMC code contracts (DFCC) on extracted template bodies, capacity fixed per variant'),
  'C02': dict(level='other', design='6 C02',
    text='nextPoT proved for all n (bucket index always in range). Map::indexOf, set/operator(), remove, operator== verified as finite-map operations on every strictly sorted map of up to 8 int keys '
-        '(sortedness is a quantified hypothesis: constant bound). HashMap::remove, operator[] on a bucket chain of up to 3 colliding nodes: exactly the addressed node is unlinked/appended, all other colliding entries stay reachable, node freed once, length +-1.',
-   note=TB + 'Level other: all functional units are bounded (<= 8 keys, chains <= 3). Rehash bucket placement is proved (HashMap_rehash_bin). Not decided: HashMap/Set operator== (fixed natively, no CBMC unit), Set algebra, String keys, clone/merge. Histories by induction over the proved operations.',
+        '(sortedness is a quantified hypothesis: constant bound). Map::add: one update per pair of the source, source storage not shared. HashMap and Set operator== by lookup (this <= 3 entries): equal iff same length and every entry found with an equal value. HashMap::remove, operator[], find/has on a bucket chain of up to 3 colliding nodes: exactly the addressed node is unlinked/appended, all other colliding entries stay reachable, node freed once, length +-1.',
+   note=TB + 'Level other: all functional units are bounded (<= 8 keys, chains <= 3). Rehash bucket placement is proved (HashMap_rehash_bin). Not decided: Set algebra, String keys, clone/merge. Histories by induction over the proved operations.',
    technique='CBMC code contracts (DFCC) with constant-bound sortedness / chain shape'),
  'C20': dict(level='proof', design='6 C20',
    text='Algebraic clause only: the expression text of Matrix4/Matrix3 inverse() and det() is parsed on every run; A*adj = adj*A = d*I entrywise (so d != 0 implies M*inverse(M) = I), det() = Leibniz determinant = d, det(AB) = det(A)det(B); each is an SMT query that is unsat on z3 4.8, z3 5.1 and cvc5.',
@@ -35,8 +35,8 @@ CLAIMS = {
  'C04': dict(level='other', design='6 C04',
    text='Var::operator=(const String&) for every scalar/string target and every string up to 12 characters (the 7/8 inline boundary: the 8-byte inline buffer is never overrun, the Var holds exactly the bytes); '
         'Var::operator== on strings for every combination of inline / heap representation (only the text matters, a string never equals a non-string); Var::operator=(const Var&) with the source an element of the target array '
-        '(no read of released storage, target equals the entry value, one reference dropped).',
-   note=TB + 'Level other: all units are bounded (text lengths, 2-element arrays). Containers inside the Var are the C01 Array contracts executed as stubs. Not decided: numeric == lattice, Dic payloads, clone depth, operator[] auto-vivification, conversions through atof.',
+        '(no read of released storage, target equals the entry value, one reference dropped). Var::clone: strings/arrays/objects are detached (dup) before any child is replaced by its clone (proved, typestate abstraction).',
+   note=TB + 'Level other: all units are bounded (text lengths, 2-element arrays). Containers inside the Var are the C01 Array contracts executed as stubs. Not decided: numeric == lattice, Dic payloads, operator[] auto-vivification, conversions through atof.',
    technique='CBMC code contracts (DFCC) on extracted Var member functions with container contracts as stubs'),
  'C05': dict(level='proof', design='6 C05',
    text='Per-value lemmas between the extracted encoder and decoder code: for EVERY byte 1..255, inside a string value and inside a quoted object key, the characters XdlEncoder::new_string writes are legal strict-JSON string text (RFC 8259 char production) '
@@ -54,8 +54,9 @@ CLAIMS = {
  'C07': dict(level='proof', design='6 C07',
    text='One step (loop body) of Xml::decode proved for EVERY byte and EVERY configuration satisfying an invariant (element-stack depth vs. parser state): the element stack never underflows (closing more than was opened), '
         'the character-reference scratch buffer suffices for every 32-bit code, the invariant is preserved or the document rejected: by induction total and memory-safe on any byte string. '
-        'Escape lemma: for every byte, in text and in both kinds of attribute value, the text XmlCodec::escape writes is decoded back to exactly that byte.',
-   note=TB + 'Stack<Xml> is modelled by its depth, Strings by length + first characters, tag comparison abstracted. NOT decided: parent() links of the built tree (Xml handles), whitespace dropping / text merging, indented mode, tag/attribute name round trip, Xml handle reference counting.',
+        'every node a step adds to an element gets its parent link (both operator<< overloads inlined from their bodies). Escape lemma: for every byte, in text and in both kinds of attribute value, the text XmlCodec::escape writes is decoded back to exactly that byte. '
+        'XmlCodec::encode writes, for an element with any number of children, start tag, every child once in order, end tag (<tag/> only without children).',
+   note=TB + 'Stack<Xml> is modelled by its depth, Strings by length + first characters, tag comparison abstracted. NOT decided: whitespace dropping / text merging, indented mode, tag/attribute name round trip, Xml handle reference counting.',
    technique='CBMC code contract (inductive invariant) on the extracted loop body + full-domain escape lemma'),
  'C08': dict(level='proof', design='6 C08',
    text='For EVERY Unicode scalar value at once (one symbolic code point): utf32toUtf8 emits exactly the bytes of Unicode table 3-6, utf8toUtf32 returns it, '
@@ -72,7 +73,7 @@ CLAIMS = {
    technique='CBMC code contracts (DFCC) per template instantiation, ghost-index byte specification'),
  'C17': dict(level='proof', design='6 C17',
    text='Only what asl itself computes: one turn of TextFile::readLine for lines of any length across the 255-byte chunks (buffer handed to fgets inside the capacity, indices in range, LF and one preceding CR cut, progress or exit each turn); '
-        'one turn of the UTF-16LE / UTF-16BE loops of text() (unit assembly in the file byte order, CR LF folding never shrinks an empty array); the plain branch of text() for every file size and read result.',
+        'one turn of the UTF-16LE / UTF-16BE loops of text() (unit assembly in the file byte order, CR LF folding never shrinks an empty array); the plain branch of text() for every file size and read result; File::close closes once and drops the cached FileInfo.',
    note=TB + 'fgets/fread are stubs with their ISO C contracts; Strings/Arrays are ghost lengths with the C03/C01 contracts. NOT decided (theorems about the OS or outside the contract language): that written bytes come back from disk, size(), append/reopen histories, lines(), Directory copy/move, files containing NUL bytes.',
    technique='CBMC code contracts on extracted loop bodies with libc/OS calls as contract stubs'),
  'C19': dict(level='proof', design='6 C19',
@@ -88,7 +89,7 @@ CLAIMS = {
    technique='CBMC code contracts on extracted code regions with callee contracts as stubs'),
  'C10': dict(level='proof', design='6 C10',
    text='Framing arithmetic only: Socket_::read / Socket_::write (blocking) hand the caller\'s buffer to the OS consecutively, each byte exactly once, never beyond its end, and terminate; '
-        'HttpMessage::write sends a body of any length up to 10^8 in consecutive blocks of 1..128000 bytes covering it exactly once, each framed as hex-size CRLF data CRLF in chunked mode.',
+        'HttpMessage::write sends a body of any length up to 10^8 in consecutive blocks of 1..128000 bytes covering it exactly once, each framed as hex-size CRLF data CRLF in chunked mode. Receiving side (units shared with C09): each turn of the body/header loops consumes input or ends; a chunk-size line read is always followed by reading that chunk\'s CRLF (nothing of the message is left in a kept-alive connection).',
    note=TB + 'The exchange property as a whole is NOT decided: end-to-end equality of method/headers/status/body over real sockets, keep-alive, many clients in flight (schedules), file bodies with ranges, readBody/readHeaders text parsing. OS read/send are stubs with their POSIX contracts.',
    technique='CBMC code contracts with loop contracts on extracted bodies, OS calls as contract stubs'),
  'C11': dict(level='proof', design='6 C11',
